@@ -2,7 +2,7 @@
 (* I->S for C10: recorded calls of clone.CutWithEnzyme(part, directional =  *)
 (* true, enzyme) with the built-in and random custom enzymes on generated   *)
 (* layouts, including every rotation of small plasmids.                     *)
-(*  [k|->"cut", enzyme, s, circ, frags]   frags: list of [fo, seq, ro]      *)
+(*  [k|->"cut", enzyme, s, circ, frags, panic]  frags: list of [fo, seq, ro] *)
 (* TLC recomputes the fragment multiset from Digest.tla.  A layout outside  *)
 (* the property's domain is not judged.  g groups the rotations of one      *)
 (* plasmid: their multisets must agree (state).                             *)
@@ -18,7 +18,8 @@ Judge(e) ==
     ELSE LET F == FragmentsS(S, s, e.circ, e.enzyme)
              ideal == BagOf(F)
              built == BagOf({f \in F : ~DroppedAsBuilt(s, e.circ, e.enzyme, f)}) IN
-         IF ObsBag(e) = ideal THEN
+         IF e.panic # "" THEN [v |-> "bad", why |-> "the call panics on a layout inside the property's domain"]
+         ELSE IF ObsBag(e) = ideal THEN
             (IF e.g = grp /\ have /\ ObsBag(e) # bag THEN [v |-> "bad", why |-> "two rotations of one plasmid give different fragment multisets"]
              ELSE [v |-> "ok", why |-> ""])
          ELSE IF ObsBag(e) = built THEN [v |-> "dev:C10-forward-site-at-origin", why |-> "fragment of a forward site cutting beyond the stored end is dropped"]
